@@ -8,7 +8,7 @@ from ..pyvc.engine import Unsupported
 VERIFIERS = [("register", "verify_register_elaborate"), ("monitor_l1", "verify_monitor_elaborate"), ("decoder_l1", "verify_csr_decoder_elaborate"),
              ("decoder_l1", "verify_wb_decoder_elaborate"), ("arbiter_l1", "verify_arbiter_grant"), ("arbiter_l1", "verify_arbiter_fanout"),
              ("gpio_l1", "verify_gpio_elaborate"), ("sram_l1", "verify_sram_elaborate"), ("bridge_l1", "verify_bridge_elaborate"),
-             ("mux_l1", "verify_mux_elaborate")]
+             ("mux_l1", "verify_mux_elaborate"), ("glue_l1", "verify_eventmonitor_elaborate"), ("glue_l1", "verify_csr_bridge_elaborate")]
 
 
 def add_to(run):
